@@ -352,11 +352,13 @@ func runBackend(c *hlib.Ctx) *hlib.Run {
 		} else {
 			errsOut = be.ClassifyLicenses(numTasks, paths, headers)
 		}
-		res = append(results.LicenseTypes(nil), be.GetResults()...)
+		// what main does with the list: sort it in place, then build the JSON
+		res = be.GetResults()
 		if !timeoutRun {
 			sort.Sort(res)
 			jr, jerr = results.NewJSONResult(res, includeText)
 		}
+		res = append(results.LicenseTypes(nil), res...)
 	})
 	out.Steps, out.VirtualNS = rep.Steps, rep.VirtualNS
 	out.Counters["tasks"] += int64(rep.Tasks)
